@@ -293,7 +293,7 @@ impl<V> Item<V> {
 pub(crate) struct CacheProcessor<V, U, CB, S> {
     pub(crate) insert_buf_rx: Receiver<Item<V>>,
     pub(crate) stop_rx: Receiver<()>,
-    pub(crate) clear_rx: UnboundedReceiver<()>,
+    pub(crate) clear_rx: UnboundedReceiver<WaitGroup>,
     pub(crate) metrics: Arc<Metrics>,
     pub(crate) store: Arc<ShardedMap<V, U, S, S>>,
     pub(crate) policy: Arc<LFUPolicy<S>>,
@@ -353,7 +353,7 @@ pub struct Cache<
 
     pub(crate) stop_tx: Sender<()>,
 
-    pub(crate) clear_tx: UnboundedSender<()>,
+    pub(crate) clear_tx: UnboundedSender<WaitGroup>,
 
     pub(crate) callback: Arc<CB>,
 
@@ -423,15 +423,23 @@ where
             return Ok(());
         }
 
-        // stop the process item thread.
-        self.clear_tx.send(()).map_err(|e| {
+        self.clear_and_wait(true)?;
+        Ok(())
+    }
+
+    /// Asks the processor to drain the insert buffer and clear policy, store and metrics,
+    /// and waits until it has done so.
+    fn clear_and_wait(&self, recheck_closed: bool) -> Result<(), CacheError> {
+        let wg = WaitGroup::new();
+        self.clear_tx.send(wg.add(1)).map_err(|e| {
             CacheError::SendError(format!("fail to send clear signal to working thread {}", e))
         })?;
-
-        self.policy.clear();
-        self.store.clear();
-        self.metrics.clear();
-
+        // a concurrent close() releases every pending request before the processor exits;
+        // a request queued after that must not be waited for.
+        if recheck_closed && self.is_closed.load(Ordering::SeqCst) {
+            return Ok(());
+        }
+        wg.wait();
         Ok(())
     }
 
@@ -492,8 +500,14 @@ where
         let wait_item = Item::Wait(wg.add(1));
         self.insert_buf_tx
             .try_send(wait_item)
-            .map(|_| wg.wait())
-            .map_err(|e| CacheError::SendError(format!("cache set buf sender: {}", e)))
+            .map_err(|e| CacheError::SendError(format!("cache set buf sender: {}", e)))?;
+        // a concurrent close() releases every queued marker before the processor exits;
+        // a marker queued after that must not be waited for.
+        if self.is_closed.load(Ordering::SeqCst) {
+            return Ok(());
+        }
+        wg.wait();
+        Ok(())
     }
 
     /// remove an entry from Cache by key.
@@ -533,17 +547,16 @@ where
     /// `close` stops all threads and closes all channels.
     #[inline]
     pub fn close(&self) -> Result<(), CacheError> {
-        if self.is_closed.load(Ordering::SeqCst) {
+        if self.is_closed.swap(true, Ordering::SeqCst) {
             return Ok(());
         }
 
-        self.clear()?;
+        self.clear_and_wait(false)?;
         // Block until processItems thread is returned
         self.stop_tx
             .send(())
             .map_err(|e| CacheError::SendError(format!("{}", e)))?;
         self.policy.close()?;
-        self.is_closed.store(true, Ordering::SeqCst);
         Ok(())
     }
 
@@ -609,7 +622,7 @@ where
         policy: Arc<LFUPolicy<S>>,
         insert_buf_rx: Receiver<Item<V>>,
         stop_rx: Receiver<()>,
-        clear_rx: UnboundedReceiver<()>,
+        clear_rx: UnboundedReceiver<WaitGroup>,
         metrics: Arc<Metrics>,
         callback: Arc<CB>,
     ) -> Self {
@@ -646,9 +659,12 @@ where
                         tracing::error!("fail to handle insert event: {}", e);
                     }
                 },
-                recv(self.clear_rx) -> _ => {
+                recv(self.clear_rx) -> msg => {
                     if let Err(e) = self.handle_clear_event() {
                         tracing::error!("fail to handle clear event: {}", e);
+                    }
+                    if let Ok(wg) = msg {
+                        wg.done();
                     }
                 },
                 recv(ticker) -> msg => {
@@ -656,14 +672,33 @@ where
                         tracing::error!("fail to handle cleanup event: {}", e);
                     }
                 },
-                recv(self.stop_rx) -> _ => return Ok(()),
+                recv(self.stop_rx) -> _ => {
+                    self.release_waiters();
+                    return Ok(());
+                },
             }
         })
     }
 
     #[inline]
     pub(crate) fn handle_clear_event(&mut self) -> Result<(), CacheError> {
-        CacheCleaner::new(self).clean()
+        let res = CacheCleaner::new(self).clean();
+        self.policy.clear();
+        self.store.clear();
+        self.metrics.clear();
+        res
+    }
+
+    /// Releases everybody still waiting on the processor: queued wait markers and clear requests.
+    fn release_waiters(&mut self) {
+        while let Ok(item) = self.insert_buf_rx.try_recv() {
+            if let Item::Wait(wg) = item {
+                wg.done();
+            }
+        }
+        while let Ok(wg) = self.clear_rx.try_recv() {
+            wg.done();
+        }
     }
 
     #[inline]
